@@ -28,6 +28,8 @@ func (ctx *Context) GetInputRequest() (req protocols.Request)
   ensures req != nil ==> typeIs(req, "*httpprot.Request") && ifaceVal(req) != 0 && ptr(ifaceVal(req), "*httpprot.Request").Request != nil && ptr(ifaceVal(req), "*httpprot.Request").Request.URL != nil && ptr(ifaceVal(req), "*httpprot.Request").Request.Header != nil
 
 // ---- used by muxInstance.serveHTTP (C01 / C03 / C07) ----
+// an HTTP response stored in the context is never half-built
+pred respOK() := outResp != 0 && outRespTyp == typeTag("*httpprot.Response") ==> allocated(ptr(outResp, "*httpprot.Response")) && ptr(outResp, "*httpprot.Response").Response != nil && ptr(outResp, "*httpprot.Response").Response.Header != nil
 ghost var handledBy int      // the handler whose Handle ran last
 ghost var handledCount int   // how many handlers ran
 
@@ -76,5 +78,5 @@ iface (h Handler) Handle(ctx *Context) (result string)
   trusted
   modifies outResp, outRespTyp, handledBy, handledCount
   ensures handledCount == old(handledCount) + 1 && handledBy == ifaceVal(h)
-  ensures an-http-response-left-by-a-pipeline-is-complete: outResp != 0 && outRespTyp == typeTag("*httpprot.Response") ==> allocated(ptr(outResp, "*httpprot.Response")) && ptr(outResp, "*httpprot.Response").Response != nil && ptr(outResp, "*httpprot.Response").Response.Header != nil
+  ensures an-http-response-left-by-a-pipeline-is-complete: respOK()
 @*/
